@@ -262,10 +262,18 @@ func execC01(t *testing.T, p *sim.Program, c *sim.Ctx) {
 				break
 			}
 			c.Abs("x", bufClass(len(ckptAbs)), len(absorbed)-len(ckptAbs) > 0)
-			h = sm3.New()
-			// dirty the fresh object first in half the cases (derived from data, not PRNG)
-			if len(ckptAbs)%2 == 1 {
+			switch len(absorbed) % 3 { // derived from data, not PRNG
+			case 0:
+				h = sm3.New()
+			case 1:
+				// the state is imported into an object that has been used for something else (written to AND summed)
+				h = sm3.New()
 				h.Write([]byte("garbage that must be forgotten"))
+				h.Sum(nil)
+			default:
+				// rewind: the state is imported into the SAME running object, right after a Sum
+				h.Sum(nil)
+				c.Hit("probe:state-imported-into-used-summed-object")
 			}
 			if err := h.(encoding.BinaryUnmarshaler).UnmarshalBinary(ckpt); err != nil {
 				c.Fail("unmarshal-error", i, op.K, "unmarshal own state: %v", err)
